@@ -780,6 +780,30 @@ func (m *Model) RunNilObj(s *Sink, rule string, fns []*ssa.Function) {
 					continue
 				}
 				facts := expandFacts(factsAt(b))
+				// the receiver comes out of a module helper (a function that follows a chain of pointers, ...): every
+				// Elem() in the helper is made on a value tested with IsNil, or the result is tested with IsValid here
+				if h := recv.Call.StaticCallee(); m.InModule(h) && h.Blocks != nil && strings.HasSuffix(types.TypeString(h.Signature.Results().At(0).Type(), nil), "reflect.Value") {
+					key := fmt.Sprintf("%s|%s(...).Interface()", fnKey(fn), h.Name())
+					unguarded := ""
+					for _, hb := range h.Blocks {
+						hf := expandFacts(factsAt(hb))
+						for _, hin := range hb.Instrs {
+							ec, isC := hin.(*ssa.Call)
+							if !isC || ec.Call.StaticCallee() == nil || fnFullName(ec.Call.StaticCallee()) != "(reflect.Value).Elem" {
+								continue
+							}
+							if !reflectFact(hf, "(reflect.Value).IsNil", ec.Call.Args[0], false) && unguarded == "" {
+								unguarded = m.InstrPos(ec)
+							}
+						}
+					}
+					if unguarded == "" || reflectFact(facts, "(reflect.Value).IsValid", recv, true) {
+						s.OK(rule, key, m.InstrPos(call), "every Elem() in %s is made on a value tested with IsNil (or the result is tested with IsValid)", h.Name())
+					} else {
+						s.Violation(rule, key, m.InstrPos(call), "%s calls Interface() on the result of %s, which takes Elem() of a pointer at %s without an IsNil() test: for a nil pointer anywhere in a chain (**T with a nil inner pointer) Elem() is the zero Value and Interface() panics", fnKey(fn), h.Name(), unguarded)
+					}
+					continue
+				}
 				switch fnFullName(recv.Call.StaticCallee()) {
 				case "(reflect.Value).Elem":
 					key := fmt.Sprintf("%s|Elem().Interface() on %s", fnKey(fn), valueDesc(recv.Call.Args[0]))
